@@ -1,8 +1,11 @@
 import A2lVerif.Lemmas.IfDataTop
+import A2lVerif.Lemmas.IfDataDepth
+import A2lVerif.Lemmas.IfDataFuel
 import A2lVerif.Lemmas.IfDataWrite
 import A2lVerif.Lemmas.IfDataUid
 import A2lVerif.Lemmas.IfDataConf
 import A2lVerif.Lemmas.IfDataEnc
+import A2lVerif.Lemmas.A2mlDepth
 import A2lVerif.Props.C03Parse
 import A2lVerif.Props.C06
 /-!
@@ -24,8 +27,15 @@ float is written with the text that `add_float` prints for the `f32` / `f64` rea
 a parameter of the model, DESIGN.md 2.2). One tolerated deviation is part of `agree`: the non-strict reader accepts an
 identifier where the definition has a string, with a diagnostic, and writes it back as a quoted string.
 
-History. Five defects (four of them recorded as refuted statements in the first version of this file) were FIXED in the Rust code
-(testdata/fixes.diff, testdata/fix5.diff), and the model follows the fixed code:
+History. Six defects (four of them recorded as refuted statements in the first version of this file) were FIXED in the Rust code
+(testdata/fixes.diff, testdata/fix5.diff, testdata/rust_fix.diff), and the model follows the fixed code:
+* the A2ML definition parser and the IF_DATA interpreter recurse once per level of a type, and the depth of a type was
+  unlimited (a few kilobytes of `struct { struct { ...` or a chain of references overflowed the stack). Now a type of
+  more than `MAX_NESTING_DEPTH = 100` levels is an error of `parse_a2ml`: section 5a' (`parse_depth_bounded`,
+  `parse_at_depth_bounded`, `parse_stored_types_bounded`, `nested_structs_limit`, `array_dims_limit`,
+  `reference_counts_with_its_depth`). No statement of this file had to be weakened: none of them claimed that a
+  particular deep definition is accepted. (The other half of that fix, the depth limit of uninterpreted IF_DATA
+  content, `NestingTooDeep`, is in Model/IfData.lean `unknownIfdata`.)
 * a comment between two items of uninterpreted content ended `parse_unknown_taggedstruct` and made the whole load fail
   with `InvalidBegin`; `unknown_values_roundtrip` needed the hypothesis "no comment directly in front of a /begin".
   Now the comment is skipped; the hypothesis is gone (`unknown_comment_between_blocks_kept` is the old counterexample,
@@ -38,6 +48,15 @@ History. Five defects (four of them recorded as refuted statements in the first 
 * a member of a tagged struct that is not defined as `("TAG" ...)*` was accepted any number of times; now the second
   occurrence is `InvalidMultiplicityTooMany` (which ends the attempt to interpret the content): `duplicate_member_rejected`,
   and `Conf` has the same restriction.
+A sixth change (testdata/rust_fix.diff): uninterpreted content nested thousands of blocks deep overflowed the stack
+(`parse_unknown_ifdata` and `parse_unknown_taggedstruct` call each other once per level). Now the depth is limited to
+`MAX_NESTING_DEPTH = 100`: block number 101 is refused with the new error `NestingTooDeep`. The model follows
+(`maxNestingDepth`, the `depth` parameter of `unknownIfdata` / `unknownTaggedstruct` / `unknownTsLoop`). Consequences here:
+* `unknown_values_roundtrip` and `fallback_iff_balanced` have the additional hypothesis / conjunct `nestingOk` (at most
+  100 blocks open at the same time: a counter over the `/begin` and `/end` tokens); `too_deep_is_error` is the other
+  side; `fallback_verdict` is the complete case distinction (`verdictAt`: the scanner with the limit built in).
+* new: `fallback_depth_bounded` (the stored tree has height at most `2 * (101 - depth)`, whatever the input is),
+  `fallback_fuel_independent` (the model's recursion budget is not observable), `nesting_boundary` (`n` blocks inside each other: kept for `n ≤ 100`, `NestingTooDeep` for every `n > 100`).
 Statements that are still FALSE for the code as it is (kept as theorems with a concrete input):
 * `conforming_accepted_needs_unambiguity`: the sequence loop is greedy, so an instance of a definition in which a
   sequence is followed by a member of the same token class is not recognised (inherent in the format).
@@ -112,6 +131,69 @@ theorem scan_def (m : Mode) (st : List (List Char)) (l : List PTok) : scan m st 
   cases l with
   | nil => cases m <;> rfl
   | cons t rest => cases m <;> rfl
+
+/-- the nesting limit, and "at most `MAX_NESTING_DEPTH` blocks are open at the same time" read independently of the
+    parser and of the scanner: a counter that looks at the Begin and End tokens only -/
+theorem maxNestingDepth_def : maxNestingDepth = 100 := rfl
+theorem nestingOk_def (toks : Array PTok) (p : Nat) :
+    nestingOk toks p = depthOk maxNestingDepth 0 (toks.toList.drop p) := rfl
+theorem depthOk_def (lim cur : Nat) (l : List PTok) : depthOk lim cur l =
+    (match l with
+     | [] => true
+     | t :: rest =>
+       if t.ty = 1 then decide (cur < lim) && depthOk lim (cur + 1) rest
+       else if t.ty = 2 then (match cur with | 0 => true | c + 1 => depthOk lim c rest)
+       else depthOk lim cur rest) := by
+  cases l <;> rfl
+
+/-- the scanner with the limit built in: three verdicts; the tag behind the `/begin` that would open block number
+    `lim + 1` ends the scan with `tooDeep` -/
+theorem verdictAt_def (toks : Array PTok) (p : Nat) :
+    verdictAt toks p = scanV maxNestingDepth .normal [] (toks.toList.drop p) := rfl
+theorem scanV_def (lim : Nat) (m : Mode) (st : List (List Char)) (l : List PTok) : scanV lim m st l =
+    (match m, st, l with
+     | _, _, [] => .reject
+     | .normal, st, t :: rest =>
+       if t.ty = 1 then scanV lim .beginTag st rest
+       else if t.ty = 2 then (match st with | [] => .accept | _ :: _ => scanV lim .endTag st rest)
+       else scanV lim .normal st rest
+     | .beginTag, st, t :: rest =>
+       if t.ty = 6 then scanV lim .beginTag st rest
+       else if t.ty = 0 then (if lim ≤ st.length then .tooDeep else scanV lim .normal (t.text :: st) rest)
+       else .reject
+     | .endTag, st, t :: rest =>
+       if t.ty = 6 then scanV lim .endTag st rest
+       else if t.ty = 0 then
+         (match st with | tag :: st' => if t.text = tag then scanV lim .normal st' rest else .reject | [] => .reject)
+       else .reject) := by
+  cases l with
+  | nil => cases m <;> rfl
+  | cons t rest => cases m <;> rfl
+
+/-- `accept` = balanced and not nested too deep; on balanced content `tooDeep` = nested too deep; what is not
+    balanced is never accepted (it is `reject` or `tooDeep`, whichever problem comes first) -/
+theorem verdict_accept_iff (toks : Array PTok) (p : Nat) :
+    verdictAt toks p = .accept ↔ balanced toks p = true ∧ nestingOk toks p = true := verdictAt_accept_iff toks p
+theorem verdict_tooDeep_of_balanced (toks : Array PTok) (p : Nat) (hb : balanced toks p = true)
+    (hd : nestingOk toks p = false) : verdictAt toks p = .tooDeep := verdictAt_tooDeep_of toks p hb hd
+
+/-- the height of a `GenericIfData` tree (a leaf is 1): the number of nested calls that a walk over the tree makes -/
+theorem genDepth_def (g : Gen) : genDepth g =
+    (match g with
+     | .array items => genDepthL items + 1
+     | .seq items => genDepthL items + 1
+     | .struct _ items => genDepthL items + 1
+     | .block _ items => genDepthL items + 1
+     | .taggedStruct items => genDepthT items + 1
+     | .taggedUnion items => genDepthT items + 1
+     | _ => 1) := by
+  cases g <;> rw [genDepth]
+theorem genDepthL_def (l : List Gen) : genDepthL l =
+    (match l with | [] => 0 | g :: rest => max (genDepth g) (genDepthL rest)) := by
+  cases l <;> rw [genDepthL]
+theorem genDepthT_def (l : List (TItem Gen)) : genDepthT l =
+    (match l with | [] => 0 | it :: rest => max (genDepth it.data) (genDepthT rest)) := by
+  cases l <;> rw [genDepthT]
 
 theorem NoInc_def (e : Env) : NoInc e ↔ ∀ (i : Nat) (t : PTok), e.toks[i]? = some t → t.ty ≠ 3 := Iff.rfl
 theorem AtomsOk_def (e : Env) : AtomsOk e ↔ ∀ (i : Nat) (t : PTok), e.toks[i]? = some t →
@@ -211,6 +293,248 @@ example : dumpOf (parseToks [.kblock, .tag "IF_DATA".toList, .ktaggedunion, .ocu
 example : dumpOf (parseToks [.kblock, .tag "IF_DATA".toList, .kstruct, .ocurly, .kuint, .ccurly, .semicolon]) = none := by
   decide
 
+/-! ## 5a'. the nesting limit of the A2ML definition parser (`MAX_NESTING_DEPTH = 100`)
+
+The A2ML parser and the IF_DATA interpreter recurse once per level of a type; without a limit a hostile definition
+overflowed the stack. FIXED in the Rust code (testdata/rust_fix.diff): `parse_aml_*` carry the number of enclosing
+levels and refuse a type that would end up more than 100 levels deep; the model follows (`specDepth`, `checkNesting`,
+the parameter `depth`). Proofs: Lemmas/A2mlDepth.lean. -/
+
+/-- `spec_depth`, equation by equation: `None` is 0 levels, a scalar or an enum 1, an array dimension and `( )*` add
+    one, a struct / tagged struct / tagged union is one more than its deepest member (1 if it has none) -/
+theorem specDepth_def :
+    specDepth .none = 0 ∧ (∀ w, specDepth (.int w) = 1) ∧ specDepth .float = 1 ∧ specDepth .double = 1 ∧
+    (∀ items, specDepth (.enum items) = 1) ∧
+    (∀ of dim, specDepth (.array of dim) = specDepth of + 1) ∧ (∀ of, specDepth (.seq of) = specDepth of + 1) ∧
+    (∀ items, specDepth (.struct items) = specDepthL items + 1) ∧
+    (∀ items, specDepth (.taggedStruct items) = specDepthT items + 1) ∧
+    (∀ items, specDepth (.taggedUnion items) = specDepthT items + 1) ∧
+    specDepthL [] = 0 ∧ (∀ s rest, specDepthL (s :: rest) = max (specDepth s) (specDepthL rest)) ∧
+    specDepthT [] = 0 ∧ (∀ t rest, specDepthT (t :: rest) = max (specDepth (Tagged.item t)) (specDepthT rest)) :=
+  ⟨specDepth_none, specDepth_int, specDepth_float, specDepth_double, specDepth_enum, specDepth_array, specDepth_seq,
+   specDepth_struct, specDepth_taggedStruct, specDepth_taggedUnion, specDepthL_nil, specDepthL_cons, specDepthT_nil,
+   specDepthT_cons⟩
+
+/-- `check_nesting(depth, inner_depth)` is `Ok` exactly when `depth + inner_depth ≤ 100` -/
+theorem checkNesting_def (depth inner : Nat) : checkNesting depth inner = true ↔ depth + inner ≤ 100 :=
+  checkNesting_iff depth inner
+
+/-- the depth of a struct / tagged type is within `n + 1` exactly when every member is within `n` -/
+theorem specDepth_members (n : Nat) (items : List Spec) (titems : List (Tagged Spec)) :
+    (specDepth (.struct items) ≤ n + 1 ↔ ∀ s ∈ items, specDepth s ≤ n) ∧
+    (specDepth (.taggedStruct titems) ≤ n + 1 ↔ ∀ t ∈ titems, specDepth t.item ≤ n) ∧
+    (specDepth (.taggedUnion titems) ≤ n + 1 ↔ ∀ t ∈ titems, specDepth t.item ≤ n) := by
+  rw [specDepth_struct, specDepth_taggedStruct, specDepth_taggedUnion, Nat.add_le_add_iff_right,
+    Nat.add_le_add_iff_right, specDepthL_le_iff, specDepthT_le_iff]
+  exact ⟨Iff.rfl, Iff.rfl, Iff.rfl⟩
+
+example : specDepth exSpec = 4 := by decide
+
+/-- **`parse_at_depth_bounded`** (the inductive form of `parse_depth_bounded`): whatever the parser functions return
+    when they are called with `depth` enclosing levels is at most `100 - depth` levels deep. For every recursion
+    budget, every set of named types (no assumption about what is stored: a reference is checked where it is used),
+    every token list. `parse_aml_type`, `parse_aml_member`, `parse_aml_tagged_def`; the member of a
+    `parse_aml_taggedmember`; every member collected by the loops of the struct / tagged struct / tagged union
+    (which are called with the depth of their members). -/
+theorem parse_at_depth_bounded (fuel : Nat) (types : TypeSet) (depth : Nat) :
+    (∀ tok toks r rest, type_ fuel types depth tok toks = .ok r rest → specDepth r.2 ≤ 100 - depth) ∧
+    (∀ toks sp rest, member fuel types depth toks = .ok sp rest → specDepth sp ≤ 100 - depth) ∧
+    (∀ toks sp rest, taggedDef fuel types depth toks = .ok sp rest → specDepth sp ≤ 100 - depth) ∧
+    (∀ ar toks t rest, taggedMember fuel types depth ar toks = .ok t rest → specDepth t.item ≤ 100 - depth) ∧
+    (∀ toks items rest, structLoop fuel types depth [] toks = .ok items rest → ∀ s ∈ items, specDepth s ≤ 100 - depth) ∧
+    (∀ ar toks items rest, taggedLoop fuel types depth ar [] toks = .ok items rest →
+      ∀ t ∈ items, specDepth (Tagged.item t) ≤ 100 - depth) := by
+  obtain ⟨h1, h2, h3, h4, h5, h6⟩ := all_depth fuel
+  refine ⟨?_, ?_, ?_, ?_, ?_, ?_⟩
+  · intro tok toks r rest h; have := h1 types depth tok toks r rest h; omega
+  · intro toks sp rest h; have := h6 types depth toks sp rest h; omega
+  · intro toks sp rest h; have := h5 types depth toks sp rest h; omega
+  · intro ar toks t rest h; exact h4 types depth ar toks t rest h
+  · intro toks items rest h s hs
+    have := h2 types depth [] toks (fun _ h => by cases h) items rest h s hs
+    omega
+  · intro ar toks items rest h
+    exact h3 types depth ar [] toks (fun _ h => by cases h) items rest h
+
+/-- ... in the sharper form for the three functions that return a type (never `None`): `depth + specDepth ≤ 100`, so
+    with 100 or more enclosing levels they return nothing at all -/
+theorem parse_at_depth_sum (fuel : Nat) (types : TypeSet) (depth : Nat) :
+    (∀ tok toks r rest, type_ fuel types depth tok toks = .ok r rest → depth + specDepth r.2 ≤ 100) ∧
+    (∀ toks sp rest, member fuel types depth toks = .ok sp rest → depth + specDepth sp ≤ 100) ∧
+    (∀ toks sp rest, taggedDef fuel types depth toks = .ok sp rest → depth + specDepth sp ≤ 100) :=
+  ⟨(all_depth fuel).1 types depth, (all_depth fuel).2.2.2.2.2 types depth, (all_depth fuel).2.2.2.2.1 types depth⟩
+
+theorem TypesBounded_def (types : TypeSet) : TypesBounded types ↔
+    ((∀ kv ∈ types.enums, specDepth kv.2 ≤ 100) ∧ (∀ kv ∈ types.structs, specDepth kv.2 ≤ 100) ∧
+     (∀ kv ∈ types.taggedstructs, specDepth kv.2 ≤ 100) ∧ (∀ kv ∈ types.taggedunions, specDepth kv.2 ≤ 100)) := Iff.rfl
+
+/-- `Reached fuel toks0 types ifdata toks`: a state of the `while` loop of `parse_a2ml` on the token list `toks0`
+    (the named types stored so far, the IF_DATA block found so far, the tokens left). These two lines are its
+    definition: the initial state, and one iteration = one declaration (`declStep`) and the `;` behind it. -/
+example (fuel : Nat) (toks0 : List ATok) : Reached fuel toks0 {} none toks0 := .start
+example (fuel : Nat) (toks0 : List ATok) (types types' : TypeSet) (ifdata ifdata' : Option Spec) (tok : ATok)
+    (rest rest2 : List ATok) (h : Reached fuel toks0 types ifdata (tok :: rest))
+    (hs : declStep fuel types ifdata tok rest = .ok (types', ifdata') (.semicolon :: rest2)) :
+    Reached fuel toks0 types' ifdata' rest2 := .step h hs
+
+/-- the result of `parse_a2ml` is the IF_DATA block of a state that the loop reaches with no token left -/
+theorem parse_result_reached (toks : List ATok) (S : Spec) (h : parseToks toks = .ok S) :
+    ∃ types, Reached (parseFuel toks.length) toks types (some S) [] := parseToks_reached toks S h
+
+/-- **`parse_stored_types_bounded`**: in every state that the loop of `parse_a2ml` reaches, on every token list, every
+    named type (`enum`, `struct`, `taggedstruct`, `taggedunion`) and the IF_DATA block are at most 100 levels deep -/
+theorem parse_stored_types_bounded (fuel : Nat) (toks0 : List ATok) (types : TypeSet) (ifdata : Option Spec)
+    (toks : List ATok) (h : Reached fuel toks0 types ifdata toks) :
+    TypesBounded types ∧ ∀ s, ifdata = some s → specDepth s ≤ 100 := reached_bounded h
+
+/-- **`parse_depth_bounded`**: every definition that `parse_a2ml` returns is at most 100 levels deep. This bounds the
+    recursion of the IF_DATA interpreter, which descends one level of the definition per call. -/
+theorem parse_depth_bounded (cs : List Char) (S : Spec) (h : parseA2ml cs = .ok S) : specDepth S ≤ 100 :=
+  parseA2ml_depth cs S h
+
+/-- ... so every definition that the IF_DATA interpreter takes from the file (`fileSpecs`: the A2ML blocks in front of
+    the cursor; the other entries of `specsAt` are the built-in ones that the caller of the library supplies) is -/
+theorem file_specs_depth_bounded (toks : Array PTok) : ∀ (p : Nat) (sp : Spec), sp ∈ fileSpecs toks p → specDepth sp ≤ 100
+  | 0, sp, h => by rw [fileSpecs] at h; cases h
+  | p + 1, sp, h => by
+    rw [fileSpecs] at h
+    rcases List.mem_append.1 h with h | h
+    · exact file_specs_depth_bounded toks p sp h
+    · split at h
+      · split at h
+        · split at h
+          · rename_i heq
+            rcases List.mem_singleton.1 h with rfl
+            exact parse_depth_bounded _ _ heq
+          · cases h
+        · cases h
+      · cases h
+
+theorem specHeight_def :
+    specHeight .none = 1 ∧ (∀ w, specHeight (.int w) = 1) ∧ specHeight .float = 1 ∧ specHeight .double = 1 ∧
+    (∀ items, specHeight (.enum items) = 1) ∧
+    (∀ of dim, specHeight (.array of dim) = specHeight of + 1) ∧ (∀ of, specHeight (.seq of) = specHeight of + 1) ∧
+    (∀ items, specHeight (.struct items) = specHeightL items + 1) ∧
+    (∀ items, specHeight (.taggedStruct items) = specHeightT items + 1) ∧
+    (∀ items, specHeight (.taggedUnion items) = specHeightT items + 1) ∧
+    specHeightL [] = 0 ∧ (∀ s rest, specHeightL (s :: rest) = max (specHeight s) (specHeightL rest)) ∧
+    specHeightT [] = 0 ∧ (∀ t rest, specHeightT (t :: rest) = max (specHeight (Tagged.item t)) (specHeightT rest)) := by
+  refine ⟨?_, ?_, ?_, ?_, ?_, ?_, ?_, ?_, ?_, ?_, ?_, ?_, ?_, ?_⟩ <;> intros <;> first | rw [specHeight] | rw [specHeightL] | rw [specHeightT]
+
+/-- **the recursion of the interpreter is bounded**: `parse_ifdata_item` (`itemP`) is structurally recursive over the
+    definition (every recursive call is on a direct component: the element of an array or sequence, a member of a
+    struct, the member of a tagged item), so the number of its activations that are nested in one another is the
+    height of the tree, `specHeight` (every node counts, `None` too). The height is at most one more than the depth,
+    hence at most 101 for every definition that comes from an A2ML block. -/
+theorem interpreter_recursion_bounded (cs : List Char) (S : Spec) (h : parseA2ml cs = .ok S) : specHeight S ≤ 101 :=
+  parseA2ml_height cs S h
+
+theorem specHeight_le_depth (sp : Spec) : specHeight sp ≤ specDepth sp + 1 := specHeight_le sp
+
+/-! ### rejection at the limit -/
+
+/-- the token list and the text of `block "IF_DATA" struct { struct { ... int; ... }; };` with `n` structs, and the
+    tree it stands for -/
+theorem nest_def :
+    nestToks 0 = [.kint] ∧ (∀ n, nestToks (n + 1) = .kstruct :: .ocurly :: (nestToks n ++ [.semicolon, .ccurly])) ∧
+    (∀ n, nestDecl n = .kblock :: .tag "IF_DATA".toList :: (nestToks n ++ [.semicolon])) ∧
+    nestSpec 0 = .int 1 ∧ (∀ n, nestSpec (n + 1) = .struct [nestSpec n]) ∧
+    nestText 0 = ['i', 'n', 't'] ∧
+    (∀ n, nestText (n + 1) = ['s', 't', 'r', 'u', 'c', 't', ' ', '{', ' '] ++ nestText n ++ [';', ' ', '}']) ∧
+    (∀ n, nestDeclText n =
+      ['b', 'l', 'o', 'c', 'k', ' ', '"', 'I', 'F', '_', 'D', 'A', 'T', 'A', '"', ' '] ++ nestText n ++ [';']) :=
+  ⟨rfl, fun _ => rfl, fun _ => rfl, rfl, fun _ => rfl, rfl, fun _ => rfl, fun _ => rfl⟩
+
+example : nestDeclText 2 = "block \"IF_DATA\" struct { struct { int; }; };".toList := by decide
+example : tokenize (nestDeclText 2) = .ok (nestDecl 2) := tokenize_nest 2
+theorem nestSpec_depth (n : Nat) : specDepth (nestSpec n) = n + 1 := specDepth_nestSpec n
+
+/-- **`nested_structs_limit`**: for every `n`, the text `block "IF_DATA" struct { struct { ... int; ... }; };` with
+    `n` anonymous structs around `int` (a type of `n + 1` levels) is accepted by `parse_a2ml` when `n ≤ 99`, with the
+    expected tree, and rejected when `n ≥ 100` -/
+theorem nested_structs_limit (n : Nat) :
+    (n ≤ 99 → parseA2ml (nestDeclText n) = .ok (nestSpec n)) ∧ (100 ≤ n → parseA2ml (nestDeclText n) = .err) := by
+  rw [parseA2ml_nest]
+  exact ⟨fun h => if_pos (by omega), fun h => if_neg (by omega)⟩
+
+/-- the same on the token list -/
+theorem nested_structs_limit_toks (n : Nat) :
+    (n ≤ 99 → parseToks (nestDecl n) = .ok (nestSpec n)) ∧ (100 ≤ n → parseToks (nestDecl n) = .err) := by
+  rw [parseToks_nest]
+  exact ⟨fun h => if_pos (by omega), fun h => if_neg (by omega)⟩
+
+/-- inside `depth` enclosing levels: `parse_aml_member` accepts `n` nested structs exactly when `depth + n + 1 ≤ 100`
+    (for every sufficient recursion budget; `rest` is what follows, not an array dimension) -/
+theorem nested_structs_at_depth (types : TypeSet) (n fuel depth : Nat) (rest : List ATok) (hf : 3 * n + 2 ≤ fuel)
+    (hr : ∀ r, rest ≠ .osquare :: r) :
+    member fuel types depth (nestToks n ++ rest) = if depth + (n + 1) ≤ 100 then .ok (nestSpec n) rest else .err :=
+  member_nest types n fuel depth rest hf hr
+
+/-- the hypothesis `specDepth ≤ 100` of everything that is said about parsed definitions is satisfiable at the
+    boundary, and not by every tree: the tree of 100 structs around `int` is 101 levels deep, and no text whatsoever
+    makes `parse_a2ml` return it (before the fix the text `nestDeclText 100` did) -/
+theorem too_deep_never_parsed (n : Nat) (hn : 100 ≤ n) (cs : List Char) : parseA2ml cs ≠ .ok (nestSpec n) := by
+  intro h
+  have := parse_depth_bounded cs _ h
+  rw [nestSpec_depth] at this
+  omega
+
+example : specDepth (nestSpec 99) = 100 ∧ parseA2ml (nestDeclText 99) = .ok (nestSpec 99) :=
+  ⟨nestSpec_depth 99, (nested_structs_limit 99).1 (by decide)⟩
+example : parseA2ml (nestDeclText 100) = .err := (nested_structs_limit 100).2 (by decide)
+
+/-- **`array_dims_limit`**: `block "IF_DATA" int[1][1]...[1];` with `k` dimensions (a type of `k + 1` levels) is
+    accepted when `k ≤ 99` and rejected when `k ≥ 100`; `dimToks k` is `[1]` `k` times, `arrSpec base k` wraps `base`
+    in `k` arrays of dimension 1 -/
+theorem array_dims_limit (k : Nat) :
+    (k ≤ 99 → parseToks (dimDecl k) = .ok (arrSpec (.int 1) k)) ∧ (100 ≤ k → parseToks (dimDecl k) = .err) := by
+  rw [parseToks_dims]
+  exact ⟨fun h => if_pos (by omega), fun h => if_neg (by omega)⟩
+
+theorem dims_def :
+    dimToks 0 = [] ∧ (∀ k, dimToks (k + 1) = .osquare :: .constant 1 :: .csquare :: dimToks k) ∧
+    (∀ k, dimDecl k = .kblock :: .tag "IF_DATA".toList :: .kint :: (dimToks k ++ [.semicolon])) ∧
+    (∀ base, arrSpec base 0 = base) ∧ (∀ base k, arrSpec base (k + 1) = arrSpec (.array base 1) k) ∧
+    (∀ base k, specDepth (arrSpec base k) = specDepth base + k) :=
+  ⟨rfl, fun _ => rfl, fun _ => rfl, fun _ => rfl, fun _ _ => rfl, fun base k => specDepth_arrSpec k base⟩
+
+def amlOk (r : Aml.PRes) : Bool := match r with | .ok _ => true | _ => false
+def amlErr (r : Aml.PRes) : Bool := match r with | .err => true | _ => false
+
+/-- `struct S <n structs around int>; block "IF_DATA" struct { struct S; };`: a reference to a named type inside one
+    enclosing level -/
+def refInside (n : Nat) : List ATok :=
+  .kstruct :: .ident ['S'] :: (nestToks n).tail ++
+    [.semicolon, .kblock, .tag "IF_DATA".toList, .kstruct, .ocurly, .kstruct, .ident ['S'], .semicolon, .ccurly, .semicolon]
+/-- `struct S <n structs around int>; block "IF_DATA" struct S;`: the reference at the top -/
+def refTop (n : Nat) : List ATok :=
+  .kstruct :: .ident ['S'] :: (nestToks n).tail ++
+    [.semicolon, .kblock, .tag "IF_DATA".toList, .kstruct, .ident ['S'], .semicolon]
+
+/-- a reference counts with the depth of the type it refers to: `S` of 100 levels (99 structs around `int`) is
+    accepted as a definition and as the IF_DATA block itself, but not inside another struct; there `S` of 99 levels
+    is the limit. (Before the fix a chain of references was the cheap way to build a deep type.) -/
+theorem reference_counts_with_its_depth :
+    amlOk (parseToks (refTop 99)) = true ∧ amlErr (parseToks (refTop 100)) = true ∧
+    amlOk (parseToks (refInside 98)) = true ∧ amlErr (parseToks (refInside 99)) = true :=
+  ⟨by decide +kernel, by decide +kernel, by decide +kernel, by decide +kernel⟩
+
+/-- `taggedstruct { "T" taggedstruct { "T" ... int; ... }; }` with `n` tagged structs -/
+def tsNest : Nat → List ATok
+  | 0 => [.kint]
+  | n + 1 => .ktaggedstruct :: .ocurly :: .tag ['T'] :: (tsNest n ++ [.semicolon, .ccurly])
+/-- `block "IF_DATA" ( <member> )*;`: the `( )*` is a level of its own -/
+def seqDecl (member : List ATok) : List ATok :=
+  .kblock :: .tag "IF_DATA".toList :: .oround :: (member ++ [.cround, .repeat_, .semicolon])
+
+/-- the other constructs at the limit: tagged structs count like structs; `( )*` is one level -/
+example : amlOk (parseToks (.kblock :: .tag "IF_DATA".toList :: (tsNest 99 ++ [.semicolon]))) = true := by decide +kernel
+example : amlErr (parseToks (.kblock :: .tag "IF_DATA".toList :: (tsNest 100 ++ [.semicolon]))) = true := by decide +kernel
+example : amlOk (parseToks (seqDecl (nestToks 98))) = true := by decide +kernel
+example : amlErr (parseToks (seqDecl (nestToks 99))) = true := by decide +kernel
+example : amlOk (parseToks (seqDecl (.kint :: dimToks 98))) = true := by decide +kernel
+example : amlErr (parseToks (seqDecl (.kint :: dimToks 99))) = true := by decide +kernel
+
 /-! ## 1. interpreted content: every value is what the tokens say -/
 
 /-- **`interp_values_roundtrip`**: if `parse_ifdata` flags the content as valid, then it stopped in front of the
@@ -281,7 +605,9 @@ example : write 2 (.block 1 [.taggedUnion [⟨1, 7, 0, 0, ['X'], .block 1 [.int 
 /-! ## 2. content that no definition describes -/
 
 /-- **`unknown_values_roundtrip`**. When no applicable definition accepts non-empty content (`htry`) and the content
-    is balanced, then `parse_ifdata` succeeds through the fallback: the block is flagged invalid, the fallback stopped
+    is balanced and at most `MAX_NESTING_DEPTH = 100` blocks are open at the same time in it (`hdepth`; without this
+    bound the statement is false since the nesting limit was introduced: `too_deep_is_error`), then `parse_ifdata`
+    succeeds through the fallback: the block is flagged invalid, the fallback stopped
     in front of the closing `/end`, and the values written for the uninterpreted data are what the tokens say (numbers
     are read as `i32`, else `i64`, else `u64`, else `f64`; identifiers are kept as identifiers). The other hypotheses
     say that the tokens are what the tokenizer produces: lines (`TokOk`), no Include token, seven token kinds, every
@@ -293,17 +619,40 @@ theorem unknown_values_roundtrip (toks : Array PTok) (strict : Bool) (f32 : List
     (hk : TokOk toks) (hni : NoInc (specialEnv toks strict)) (hat : AtomsOk (specialEnv toks strict))
     (hne : NonEmpty (specialEnv toks strict) s)
     (htry : trySpecs f32 ctx specs (specialEnv toks strict) s = .ok none s1)
-    (hbal : balanced toks s.pos = true) :
+    (hbal : balanced toks s.pos = true) (hdepth : nestingOk toks s.pos = true) :
     ∃ g s', parseIfdata f32 specs ctx (specialEnv toks strict) s = .ok (some g, false) s' ∧
       AtEnd (specialEnv toks strict) s' ∧ Rel (specialEnv toks strict) f32 s s' (values true g) := by
   obtain ⟨hp, heq⟩ := parseIfdata_fallback hne htry
   obtain ⟨t, ht, _⟩ := hne
   have hlt : s.pos < toks.size := lt_of_getElem?_some ht
   obtain ⟨g, s', hr, hend, hrel⟩ := (unknownStart_balanced toks strict f32 hk (by omega) hni hat ctx s1
-    (by rw [hp]; omega)).1 (by rw [hp]; exact hbal)
+    (by rw [hp]; omega)).1 (by rw [hp]; exact hbal) (by rw [hp]; exact hdepth)
   refine ⟨g, s', ?_, hend, hrel.fromPos hp.symm⟩
   rw [heq, bind_eq, hr]
   rfl
+
+/-- the hypotheses `hbal`, `hdepth` are satisfiable: the example content (one inner block), and 100 blocks inside each
+    other; 101 blocks inside each other are balanced but too deep -/
+example : balanced exGarbage 0 = true ∧ nestingOk exGarbage 0 = true := by decide +kernel
+example : balanced (nestedToks 100) 0 = true ∧ nestingOk (nestedToks 100) 0 = true := by decide +kernel
+example : balanced (nestedToks 101) 0 = true ∧ nestingOk (nestedToks 101) 0 = false := by decide +kernel
+
+/-- **`too_deep_is_error`**: balanced content in which more than `MAX_NESTING_DEPTH` blocks are open at the same time
+    is not kept: the fallback, and with it `parse_ifdata`, fails with `NestingTooDeep` (so the whole load fails, in
+    both modes: the error is not recoverable) -/
+theorem too_deep_is_error (toks : Array PTok) (strict : Bool) (f32 : List Char → Option (List Char))
+    (specs : List Spec) (ctx : Ctx) (s s1 : PState)
+    (hk : TokOk toks) (hni : NoInc (specialEnv toks strict)) (hat : AtomsOk (specialEnv toks strict))
+    (hne : NonEmpty (specialEnv toks strict) s)
+    (htry : trySpecs f32 ctx specs (specialEnv toks strict) s = .ok none s1)
+    (hbal : balanced toks s.pos = true) (hdepth : nestingOk toks s.pos = false) :
+    ∃ line s', parseIfdata f32 specs ctx (specialEnv toks strict) s = .err ⟨.nestingTooDeep, line⟩ s' := by
+  obtain ⟨hp, heq⟩ := parseIfdata_fallback hne htry
+  obtain ⟨t, ht, _⟩ := hne
+  have hlt : s.pos < toks.size := lt_of_getElem?_some ht
+  obtain ⟨line, s', hr⟩ := (unknownStart_balanced toks strict f32 hk (by omega) hni hat ctx s1
+    (by rw [hp]; omega)).2.1 (by rw [hp]; exact hbal) (by rw [hp]; exact hdepth)
+  exact ⟨line, s', by rw [heq, bind_eq, hr]⟩
 
 /-- ... and when the content is not balanced, the fallback, and with it `parse_ifdata`, returns an error: it never
     panics and never loops -/
@@ -318,25 +667,133 @@ theorem unbalanced_is_error (toks : Array PTok) (strict : Bool) (f32 : List Char
   obtain ⟨t, ht, _⟩ := hne
   have hlt : s.pos < toks.size := lt_of_getElem?_some ht
   obtain ⟨d, s', hr⟩ := (unknownStart_balanced toks strict f32 hk (by omega) hni hat ctx s1
-    (by rw [hp]; omega)).2 (by rw [hp]; exact hbal)
+    (by rw [hp]; omega)).2.2 (by rw [hp]; exact hbal)
   exact ⟨d, s', by rw [heq, bind_eq, hr]⟩
 
-/-- the fallback alone, both directions at once: on well-formed tokens it succeeds exactly on balanced content -/
+/-- the fallback alone, both directions at once: on well-formed tokens it succeeds exactly on balanced content in which
+    at most `MAX_NESTING_DEPTH` blocks are open at the same time -/
 theorem fallback_iff_balanced (toks : Array PTok) (strict : Bool) (hk : TokOk toks) (hne : toks.size ≠ 0)
     (hni : NoInc (specialEnv toks strict)) (hat : AtomsOk (specialEnv toks strict)) (ctx : Ctx) (s : PState)
     (hs : s.pos ≤ toks.size) :
-    (∃ g s', unknownStart ctx (specialEnv toks strict) s = .ok g s') ↔ balanced toks s.pos = true := by
-  have h := unknownStart_balanced toks strict (fun _ => none) hk (Nat.pos_of_ne_zero hne) hni hat ctx s hs
+    (∃ g s', unknownStart ctx (specialEnv toks strict) s = .ok g s') ↔
+      (balanced toks s.pos = true ∧ nestingOk toks s.pos = true) := by
+  have h := unknownStart_verdict toks strict (fun _ => none) hk (Nat.pos_of_ne_zero hne) hni hat ctx s hs
+  rw [← verdict_accept_iff]
   constructor
   · rintro ⟨g, s', hr⟩
-    cases hb : balanced toks s.pos with
-    | true => rfl
-    | false =>
-      obtain ⟨d, s'', hr'⟩ := h.2 hb
-      rw [hr] at hr'; cases hr'
-  · intro hb
-    obtain ⟨g, s', hr, _⟩ := h.1 hb
+    cases hv : verdictAt toks s.pos with
+    | accept => rfl
+    | tooDeep => obtain ⟨line, s'', hr'⟩ := h.2.1 hv; rw [hr] at hr'; cases hr'
+    | reject => obtain ⟨d, s'', hr', _⟩ := h.2.2 hv; rw [hr] at hr'; cases hr'
+  · intro hv
+    obtain ⟨g, s', hr, _⟩ := h.1 hv
     exact ⟨g, s', hr⟩
+
+/-- **`fallback_verdict`**: the complete case distinction. On well-formed tokens the three ways in which the fallback
+    ends are the three verdicts of the scanner with the limit: `accept` — a result, the cursor in front of the closing
+    `/end`, all values kept; `tooDeep` — the error `NestingTooDeep`; `reject` — another error. (Whichever problem comes
+    first in the token stream decides, in the scanner as in the parser.) -/
+theorem fallback_verdict (toks : Array PTok) (strict : Bool) (f32 : List Char → Option (List Char))
+    (hk : TokOk toks) (hne : toks.size ≠ 0)
+    (hni : NoInc (specialEnv toks strict)) (hat : AtomsOk (specialEnv toks strict)) (ctx : Ctx) (s : PState)
+    (hs : s.pos ≤ toks.size) :
+    (verdictAt toks s.pos = .accept ↔
+      ∃ g s', unknownStart ctx (specialEnv toks strict) s = .ok g s' ∧ AtEnd (specialEnv toks strict) s' ∧
+        Rel (specialEnv toks strict) f32 s s' (values true g)) ∧
+    (verdictAt toks s.pos = .tooDeep ↔
+      ∃ line s', unknownStart ctx (specialEnv toks strict) s = .err ⟨.nestingTooDeep, line⟩ s') ∧
+    (verdictAt toks s.pos = .reject ↔
+      ∃ d s', unknownStart ctx (specialEnv toks strict) s = .err d s' ∧ d.kind ≠ .nestingTooDeep) := by
+  obtain ⟨h1, h2, h3⟩ := unknownStart_verdict toks strict f32 hk (Nat.pos_of_ne_zero hne) hni hat ctx s hs
+  refine ⟨⟨h1, ?_⟩, ⟨h2, ?_⟩, ⟨h3, ?_⟩⟩
+  · rintro ⟨g, s', hr, _⟩
+    cases hv : verdictAt toks s.pos with
+    | accept => rfl
+    | tooDeep => obtain ⟨line, s'', hr'⟩ := h2 hv; rw [hr] at hr'; cases hr'
+    | reject => obtain ⟨d, s'', hr', _⟩ := h3 hv; rw [hr] at hr'; cases hr'
+  · rintro ⟨line, s', hr⟩
+    cases hv : verdictAt toks s.pos with
+    | accept => obtain ⟨g, s'', hr', _⟩ := h1 hv; rw [hr] at hr'; cases hr'
+    | tooDeep => rfl
+    | reject => obtain ⟨d, s'', hr', hk'⟩ := h3 hv; rw [hr] at hr'; cases hr'; exact absurd rfl hk'
+  · rintro ⟨d, s', hr, hk'⟩
+    cases hv : verdictAt toks s.pos with
+    | accept => obtain ⟨g, s'', hr', _⟩ := h1 hv; rw [hr] at hr'; cases hr'
+    | tooDeep => obtain ⟨line, s'', hr'⟩ := h2 hv; rw [hr] at hr'; cases hr'; exact absurd rfl hk'
+    | reject => rfl
+
+/-- **`fallback_depth_bounded`**: the fallback never recurses deeper than the limit, and what it returns is a shallow
+    tree, whatever the tokens are (no hypothesis on them, any recursion budget of the model). `parse_unknown_ifdata`
+    called with `depth = dp` returns nothing when `dp > MAX_NESTING_DEPTH` (it fails at once, `NestingTooDeep`, the parser
+    state untouched), and a result has height at most `2 * (MAX_NESTING_DEPTH + 1 - dp)`: a `Struct` and a `TaggedStruct`
+    per nested block. Every call that `parse_unknown_taggedstruct` makes is one level deeper (Model/IfData.lean), so
+    below a call with `depth = dp` there are at most `MAX_NESTING_DEPTH + 1 - dp` nested calls that return. The height
+    bounds the recursion of everything that walks the stored data afterwards (`GenericIfData::write`, `merge_includes`,
+    `Drop`). -/
+theorem fallback_depth_bounded (e : Env) (fuel : Nat) (ctx : Ctx) (isB : Bool) (dp : Nat) (s : PState) :
+    (maxNestingDepth < dp → unknownIfdata (fuel + 1) ctx isB dp [] e s = .err ⟨.nestingTooDeep, s.lastLine⟩ s) ∧
+    (∀ g s', unknownIfdata fuel ctx isB dp [] e s = .ok g s' →
+      dp ≤ maxNestingDepth ∧ genDepth g ≤ 2 * (maxNestingDepth + 1 - dp)) := by
+  constructor
+  · intro h
+    rcases unknownIfdata_deep (e := e) (fuel + 1) ctx isB dp [] s h with h' | h'
+    · rw [unknownIfdata.eq_def] at h'
+      dsimp only at h'
+      rw [if_pos h] at h'
+      cases h'
+    · exact h'
+  · intro g s' h
+    exact ⟨unknownIfdata_ok_depth h, unknownIfdata_genDepth h⟩
+
+/-- **`fallback_fuel_independent`**: the recursion budget of the model (`fuel`, which the Rust code does not have) is
+    not observable. A larger budget never changes a result other than "budget exhausted" (any tokens, any arguments);
+    `unknownStart` is `unknownStartWith` with the budget `unknownFuel toks.size`; and on well-formed tokens every budget
+    from there on gives the same result (`ifdata_total`: that budget is never exhausted). Together with
+    `fallback_depth_bounded`: the depth of the recursion is limited by `MAX_NESTING_DEPTH`, not by the budget. -/
+theorem fallback_fuel_monotone (e : Env) (fuel fuel' : Nat) (h : fuel ≤ fuel') (ctx : Ctx) (isB : Bool) (dp : Nat)
+    (acc : List Gen) (s : PState) (hne : unknownIfdata fuel ctx isB dp acc e s ≠ .fuel) :
+    unknownIfdata fuel' ctx isB dp acc e s = unknownIfdata fuel ctx isB dp acc e s :=
+  unknownIfdata_fuel_mono h ctx isB dp acc s hne
+
+theorem unknownStart_budget (e : Env) (ctx : Ctx) (s : PState) :
+    unknownStart ctx e s = unknownStartWith (unknownFuel e.toks.size) ctx e s := rfl
+
+theorem fallback_fuel_independent (toks : Array PTok) (strict : Bool) (hk : TokOk toks) (hne : toks.size ≠ 0)
+    (hni : NoInc (specialEnv toks strict)) (ctx : Ctx) (s : PState) (hs : s.pos ≤ toks.size)
+    (fuel : Nat) (hf : unknownFuel toks.size ≤ fuel) :
+    unknownStartWith fuel ctx (specialEnv toks strict) s = unknownStart ctx (specialEnv toks strict) s :=
+  unknownStartWith_eq toks strict hk (Nat.pos_of_ne_zero hne) hni ctx s hs fuel hf
+
+/-- ... and for `parse_unknown_ifdata_start` and `parse_ifdata`: uninterpreted data that is stored has height at most
+    `2 * MAX_NESTING_DEPTH + 4 = 204` (two more levels, `Block` and `TaggedUnion`, when the content starts with an
+    identifier) -/
+theorem fallback_result_shallow (e : Env) (ctx : Ctx) (s s' : PState) (g : Gen)
+    (h : unknownStart ctx e s = .ok g s') : genDepth g ≤ 204 := unknownStart_genDepth h
+
+theorem stored_unknown_data_shallow (e : Env) (f32 : List Char → Option (List Char)) (specs : List Spec) (ctx : Ctx)
+    (s s' : PState) (g : Gen) (h : parseIfdata f32 specs ctx e s = .ok (some g, false) s') : genDepth g ≤ 204 :=
+  parseIfdata_invalid_genDepth h
+
+example : genDepth (.block 1 [.taggedUnion [⟨1, 7, 0, 0, ['X'], .struct 0 [.int 5 0 16 true, .str 1 ['a']], false⟩]]) = 4 := by
+  simp [genDepth, genDepthL, genDepthT]
+
+/-- **`nesting_boundary`**: `n` blocks inside each other (`/begin a /begin a ... /end a /end a /end IF_DATA`,
+    `nestedToks n`), for every `n`, in both modes, from any parser state at the start of the content: for
+    `n ≤ MAX_NESTING_DEPTH = 100` the fallback keeps the content, for every `n > 100` it fails with `NestingTooDeep`. -/
+theorem nesting_boundary (n : Nat) (strict : Bool) (ctx : Ctx) (s : PState) (hs : s.pos = 0) :
+    (n ≤ 100 → ∃ g s', unknownStart ctx (specialEnv (nestedToks n) strict) s = .ok g s') ∧
+    (100 < n → ∃ line s', unknownStart ctx (specialEnv (nestedToks n) strict) s = .err ⟨.nestingTooDeep, line⟩ s') :=
+  unknownStart_nested n strict ctx s hs
+
+theorem nestedToks_def (n : Nat) : nestedToks n = (opens n ++ (closes n ++ [tokEnd, tokIfData])).toArray := rfl
+example : opens 2 = [tk 1 "/begin".toList, tk 0 ['a'], tk 1 "/begin".toList, tk 0 ['a']] := rfl
+example : closes 2 = [tk 2 "/end".toList, tk 0 ['a'], tk 2 "/end".toList, tk 0 ['a']] := rfl
+
+/-- the boundary on the model itself: 100 blocks inside each other are kept (the cursor ends in front of the closing
+    `/end`, token 400), 101 are refused; the error carries the line of the last token read (all tokens are on line 1) -/
+example : endPos (unknownStart exCtx (specialEnv (nestedToks 100) true) {}) = some 400 := by decide +kernel
+example : (match unknownStart exCtx (specialEnv (nestedToks 101) true) {} with
+    | .err d s => some (d, s.pos, s.seqId) | _ => none) = some (⟨.nestingTooDeep, 1⟩, 202, 101) := by decide +kernel
 
 /-- the counterexample of the first version of this file (`X /begin A 2 /end A /* c */ /begin B 3 /end B`: one comment
     between two inner blocks; the unfixed code failed with `InvalidBegin`): now kept, all values in order -/
